@@ -202,6 +202,53 @@ def vectors(body, start=0):
     return out
 
 
+class _BitWriter(object):
+    """LSB-first bit packer (brotli, RFC 7932)."""
+
+    def __init__(self):
+        self.acc = 0
+        self.count = 0
+
+    def put(self, value, nbits):
+        self.acc |= value << self.count
+        self.count += nbits
+
+    def bytes(self):
+        return bytes((self.acc >> (8 * i)) & 0xff
+                     for i in range((self.count + 7) // 8))
+
+
+def brotli_bomb(blocks, block_len=65536):
+    """Minimal brotli stream (RFC 7932; construction adapted from the
+    demonstration of seeded change C08-r3m2): each meta-block has one-symbol
+    prefix codes and one command 'insert a literal, copy block_len - 1 bytes
+    from distance 1' - about 12 bytes for block_len bytes of output."""
+    w = _BitWriter()
+    w.put(0, 1)                       # WBITS = 16
+    for i in range(blocks):
+        last = i == blocks - 1
+        w.put(1 if last else 0, 1)    # ISLAST
+        if last:
+            w.put(0, 1)               # ISLASTEMPTY
+        w.put(0, 2)                   # MNIBBLES = 4
+        w.put(block_len - 1, 16)      # MLEN - 1
+        if not last:
+            w.put(0, 1)               # ISUNCOMPRESSED
+        for _ in range(3):
+            w.put(0, 1)               # NBLTYPES = 1 (literal, insert, dist)
+        w.put(0, 2)                   # NPOSTFIX
+        w.put(0, 4)                   # NDIRECT
+        w.put(0, 2)                   # literal context mode
+        w.put(0, 1)                   # NTREESL = 1
+        w.put(0, 1)                   # NTREESD = 1
+        w.put(1, 2), w.put(0, 2), w.put(0x41, 8)    # literal code: 'A'
+        w.put(1, 2), w.put(0, 2), w.put(399, 10)    # insert 1 / copy code 23
+        w.put(1, 2), w.put(0, 2), w.put(16, 6)      # distance symbol 16
+        w.put(block_len - 1 - 2118, 24)             # copy length extra bits
+        w.put(0, 1)                                 # distance 1
+    return w.bytes()
+
+
 _bombs = {}
 
 
@@ -273,8 +320,14 @@ def mutate(data, m):
         alg = int.from_bytes(body[0:2], "big")
         if alg != 1:
             return None
-        blob = bomb_blob(m[1])
         declared = int.from_bytes(body[2:5], "big") if m[2] else 1000
+        if len(m) > 3 and m[3] == "brotli":
+            # the receiver advertises brotli whenever it can decode it
+            blob = brotli_bomb(16 * m[1])
+            nb = b"\x00\x02" + declared.to_bytes(3, "big") + \
+                len(blob).to_bytes(3, "big") + blob
+            return fixlen(t, nb)
+        blob = bomb_blob(m[1])
         nb = body[0:2] + declared.to_bytes(3, "big") + \
             len(blob).to_bytes(3, "big") + blob
         return fixlen(t, nb)
@@ -402,6 +455,20 @@ def judge(conn, outcome, who, wire_before, link, side, labels,
         if not any(r["type"] == 21 for r in recs):
             return ("no-alert:%s@%s" % (type(e).__name__, exc_site(e)),
                     "%s raised %r without sending an alert" % (who, e))
+    if isinstance(e, TLSLocalAlert):
+        # ... and the alert must really have left: an exception that only
+        # *says* an alert was sent is not enough
+        sent = link.wire(side)[wire_before:]
+        recs, _ = records(sent)
+        # (type None = SSLv2-style framing, used when the peer's hello
+        # named version 2.0)
+        seen = any(r["type"] in (21, None) for r in recs) or (
+            tuple(getattr(conn, "_c08_version", None) or (0, 0)) == (3, 4)
+            and
+            recs and recs[-1]["type"] == 23 and recs[-1]["len"] <= 64)
+        if not seen and getattr(conn, "_c08_version", None) is not None:
+            return ("alert-not-on-the-wire:%s" % who.split("(")[0],
+                    "%s raised %r but wrote no alert record" % (who, e))
     if not conn.closed:
         return ("not-closed:%s" % type(e).__name__,
                 "%s failed with %r but the connection is not closed" % (
@@ -438,15 +505,45 @@ def check(case):
 
     def prepare(cc, scn):
         Deviant(cc if side == "c" else scn, fn)
+        if case.get("nocs"):
+            # without the implicit flush of socket.close()
+            (scn if side == "c" else cc).closeSocket = False
     client, server = opts_for(name)
     DET.reseed("C08", name)
     measure = case.get("mem") or case["m"][0] in ("hugelen", "bomb")
-    if case["m"][0] == "bomb":
+    brot = None
+    if case["m"][0] == "bomb" and len(case["m"]) > 3 and \
+            case["m"][3] == "brotli":
+        # tracemalloc makes the pure-Python decoder crawl: observe what the
+        # decoder hands back instead (harness-side wrapper around the
+        # library's registry entry, restored afterwards)
+        from tlslite.utils import compression as _comp
+        orig_dec = _comp.compression_algo_impls.get("brotli_decompress")
+        if not orig_dec:
+            return good(nt=False, labels=labels + ["no-brotli"])
+        brot = {"max": 0}
+
+        def observe(*a, **kw):
+            out = orig_dec(*a, **kw)
+            brot["max"] = max(brot["max"], len(out))
+            return out
+        _comp.compression_algo_impls["brotli_decompress"] = observe
+        measure = False
+    elif case["m"][0] == "bomb":
         bomb_blob(case["m"][1])
     if measure:
         tracemalloc.start()
         tracemalloc.reset_peak()
-    p = sc.connect(client, server, prepare=prepare, max_steps=20000)
+    try:
+        p = sc.connect(client, server, prepare=prepare, max_steps=20000)
+    finally:
+        if brot is not None:
+            _comp.compression_algo_impls["brotli_decompress"] = orig_dec
+    if brot is not None and brot["max"] > 2 ** 20:
+        return bad("memory:msg=compressed_certificate:brotli",
+                   "the decoder produced %d bytes for a CompressedCertificate "
+                   "that declares a few hundred" % brot["max"],
+                   labels=labels)
     peak = None
     if measure:
         peak = tracemalloc.get_traced_memory()[1]
@@ -455,6 +552,14 @@ def check(case):
         return good(nt=False, labels=labels + ["not-applied"])
     vconn = p.conn(vic)
     vout = p.co if vic == "c" else p.so
+    # version the victim was speaking when it failed (_shutdown resets it):
+    # from the ServerHello on the wire
+    try:
+        shs = [tap.parse_server_hello(b) for t, b in tap.plaintext_flight(
+            p.link.wire("s"))[0] if t == 2]
+        vconn._c08_version = shs[-1]["version"] if shs else (3, 3)
+    except (IndexError, ValueError, KeyError):
+        vconn._c08_version = None
     if p.verdict == "spin":
         return bad("spin:%s" % labels[-1], "driver verdict spin",
                    labels=labels)
@@ -746,6 +851,7 @@ def cases(draw, tier):
         return c
     fl = draw(st.sampled_from([f for f in FL_NAMES if f != "any"]))
     return {"fl": fl, "side": draw(st.sampled_from(["c", "s"])),
+            "nocs": draw(st.booleans()),
             "idx": draw(st.integers(0, 11)), "m": draw(mut_strategy()),
             "mem": tier == "thorough" and draw(st.integers(0, 9)) == 0}
 
@@ -823,13 +929,17 @@ def explicit(tier, seed):
         tr = honest(fl)
         for side in "cs":
             for idx, (t, ln) in enumerate(tr[side]):
-                for m in fixed:
-                    yield {"fl": fl, "side": side, "idx": idx, "m": m}
+                for j, m in enumerate(fixed):
+                    yield {"fl": fl, "side": side, "idx": idx, "m": m,
+                           "nocs": (j + idx) % 2 == 0}
                 if t == 25:
                     for mb in (8, 32):
                         for keep in (0, 1):
                             yield {"fl": fl, "side": side, "idx": idx,
                                    "m": ["bomb", mb, keep]}
+                    for keep in (0, 1):
+                        yield {"fl": fl, "side": side, "idx": idx,
+                               "m": ["bomb", 4, keep, "brotli"]}
                 if t in (1, 2, 8):
                     for m in ext_fixed:
                         yield {"fl": fl, "side": side, "idx": idx, "m": m}
